@@ -312,6 +312,7 @@ def units(tier):
     us.append(("unit_btp_btf", ((2, 2), "default", "across")))
     us.append(("unit_btp_btf", ((2, 1), "default", "within")))
     us.append(("unit_btp_btf", ((1, 1), "default", "across")))
+    us.append(("unit_btp_btf", ((6, 5), "default")))
     us.append(("unit_btp_btf", ((1, 1), "default", None, True)))
     us.append(("unit_btp_btf", ((1, 1), "custom", None, True)))
     for op in ("rate",) + PREDICTS:
